@@ -11,6 +11,7 @@ mod c15;
 mod c14;
 mod c23;
 mod c11;
+mod c22;
 
 fn main() {
     std::panic::set_hook(Box::new(|_| {}));
@@ -27,6 +28,7 @@ fn main() {
         "c14" => c14::run_case,
         "c23" => c23::run_case,
         "c11" => c11::run_case,
+        "c22" => c22::run_case,
         _ => {
             eprintln!("unknown subcommand {cmd}");
             std::process::exit(2);
